@@ -259,6 +259,12 @@ func (c *ColumnImage) UnmarshalJSON(data []byte) error {
 			actualValue = string(val)
 		case JDBCTypeBinary, JDBCTypeVarBinary, JDBCTypeLongVarBinary, JDBCTypeBit:
 			actualValue = value
+			// binary values are marshalled as base64 text, turn them back into bytes
+			if str, ok := value.(string); ok {
+				if val, decodeErr := base64.StdEncoding.DecodeString(str); decodeErr == nil {
+					actualValue = val
+				}
+			}
 		}
 	}
 	*c = ColumnImage{
